@@ -16,7 +16,8 @@ LEVEL = "exploration"
 RULE = ("non-negative integer count table (all-zero vectors, single-entry "
         "vectors, totals equal to n, counts up to 1e6) x n >= 1 (below, at "
         "and above the vector totals) x axis x with/without replacement x "
-        "by_id x seed x form x history; oracle = validity predicate per "
+        "by_id x seed x form x history x optional second call after an "
+        "in-place scaling; oracle = validity predicate per "
         "vector (sum, bounds, support, retained set, dropped other-axis "
         "vectors), same-seed determinism, input unchanged; non-trivial = "
         "some vector with total > n and >= 2 non-zero entries (by_id: "
@@ -76,7 +77,10 @@ def cases(draw, tier):
             # how the call is spelled: keywords, positional arguments in
             # the documented order, or the generate_subsamples() helper
             "call": draw(st.sampled_from(["kw", "kw", "positional",
-                                          "generator"]))}
+                                          "generator"])),
+            # the same call again after the table's counts were scaled in
+            # place (nothing about a table may be remembered across edits)
+            "again": draw(st.sampled_from([None, None, 2, 3]))}
 
 
 def strategy(tier):
@@ -223,6 +227,18 @@ def check(case, rec):
             if (have or None) != (want or None):
                 raise Violation("metadata", "%s id %r metadata %r != %r" %
                                 (ax, i, have, want))
+    if case.get("again"):
+        k = int(case["again"])
+        t.transform(lambda v, i, md: v * k, axis=axis, inplace=True)
+        before2 = observe.snapshot(t)
+        got3 = observe.snapshot(run(t, case))
+        validity(Ref.from_snapshot(before2), got3, axis, n, mode,
+                 "second subsample, after scaling the counts by %d in place"
+                 % k)
+        if observe.snapshot(t) != before2:
+            raise Violation("input-modified", "second subsample changed "
+                            "its input")
+        rec.cls("subsampled-again-after-edit")
     # same seed, same result (on an independently built table)
     rec.cls("call:" + case.get("call", "kw"))
     if case.get("call") == "generator" and mode != "with":
